@@ -31,7 +31,7 @@ RecAt(R, m) ==      \* the same position of a recorded state (1..)
 ProbeVerdict(x) ==
     IF Failed(x)
     THEN [id |-> x.id, kind |-> "probe", ok |-> FALSE, crashed |-> TRUE,
-          hist_ok |-> FALSE, route |-> "?", known |-> {},
+          hist_ok |-> FALSE, route |-> "?", known |-> {}, cfirst |-> <<>>,
           impl_ok |-> FALSE, ref_ok |-> FALSE, agree |-> FALSE, order_ok |-> FALSE, symtab_ok |-> FALSE,
           usable |-> TRUE, nimpl |-> 0, nref |-> 0, first |-> <<>>, nev |-> 0, nloop |-> 0,
           orderdiff |-> 0]
@@ -47,17 +47,34 @@ ProbeVerdict(x) ==
         st == SymTabDiff(x) = {} /\ SymOrderBad(x) = {}
         usable == ~W.bad /\ WellFormed(x)       \* else: a generator fault, no verdict
         m == CHOOSE v \in mi \cup mr : TRUE
-        \* Known_C02-cdivision-int: the program divides two integer-typed
-        \* operands, the executor agrees with Eval, and the compiled state is
-        \* exactly the state obtained when every such `/` truncates
-        cdivKnown == /\ mi # {} /\ x.idiv /\ mr = {} /\ df = 0 /\ st /\ x.oldtouched = 0
-                     /\ Mismatch(x, EvalLogM(x, log, c1[2], TRUE).A, x.impl) = {}
+        \* Known findings (C semantics of the generated code where the Python
+        \* source means something else): the executor agrees with Eval and the
+        \* compiled state is EXACTLY the state obtained when the constructs in
+        \* `need` are evaluated with C semantics; `need` is the set of
+        \* constructs that cannot be dropped from that explanation
+        full == SetOfSeq(x.cops)
+        fits(M) == Mismatch(x, EvalLogM(x, log, c1[2], M).A, x.impl) = {}
+        need == IF mi # {} /\ full # {} /\ mr = {} /\ df = 0 /\ st /\ x.oldtouched = 0
+                THEN (IF fits(full) THEN {c \in full : ~fits(full \ {c})} ELSE {})
+                ELSE {}
+        fid(c) == CASE c = "div" -> "C02-cdivision-int"
+                    [] c = "floor" -> "C02-cdivision-floor"
+                    [] c = "ovf" -> "C02-long-overflow"
     IN [id |-> x.id, kind |-> "probe", crashed |-> FALSE,
         ok |-> mi = {} /\ mr = {} /\ df = 0 /\ st /\ x.ratbits = 0 /\ x.oldtouched = 0,
         \* history: compute() after update_particle_arrays leaves the replaced
         \* arrays (properties and constants) as they were
         hist_ok |-> x.oldtouched = 0, route |-> x.route,
-        known |-> IF cdivKnown THEN {"C02-cdivision-int"} ELSE {},
+        known |-> {fid(c) : c \in need},
+        \* diagnostics: where the compiled state also differs from the state
+        \* under C semantics of all the module's C-sensitive constructs
+        cfirst |-> IF mi = {} \/ full = {} \/ need # {} THEN <<>>
+                   ELSE LET Wc == EvalLogM(x, log, c1[2], full).A
+                            mc == Mismatch(x, Wc, x.impl)
+                            k == CHOOSE v \in mc : TRUE
+                        IN IF mc = {} THEN <<>>
+                           ELSE <<[arr |-> k[1], what |-> k[2], name |-> k[3], index |-> k[4] - 1,
+                                   cwant |-> <<ValAt(Wc, k)>>, impl |-> <<RecAt(x.impl, k)>>]>>,
         impl_ok |-> mi = {}, ref_ok |-> mr = {}, agree |-> x.ratbits = 0, order_ok |-> df = 0,
         symtab_ok |-> st, usable |-> usable,
         nimpl |-> Cardinality(mi), nref |-> Cardinality(mr),
